@@ -153,6 +153,53 @@ def run_conversions(acc):
     acc.sample({"clause": "conversion", "from": "degF", "to": "kelvin", "value": 1234.5, "error": 3.0, "expected_std": 3.0 * 5 / 9})
 
 
+# ----------------------------------------------------------------------------- compaction
+
+COMPACT_UNITS = ["meter", "kilometer", "millimeter", "millisecond", "second", "microfarad", "kilogram", "gram", "megawatt", "nanometer"]
+
+
+def run_compact(acc):
+    """to_compact() (and the '#' format flag) is a conversion like any other: the prefix is the one the plain quantity of the
+    nominal value gets, the nominal value is that plain quantity's, and the standard deviation is scaled by the same slope"""
+    ureg = regs.default("float")
+    Q, Meas = ureg.Quantity, ureg.Measurement
+    from uncertainties import ufloat
+    for u in COMPACT_UNITS:
+        for v, rel in itertools.product((1500.0, 0.0025, 2.5e7, 1.0, 12.0, -47000.0, 3e-8), (0.0, 0.01, 0.2)):
+            e = abs(v) * rel
+            plain = call(lambda: Q(v, u).to_compact())
+            if plain[0] != "ok":
+                continue
+            pc = plain[1]
+            slope = pc.magnitude / v
+            case = {"unit": u, "value": v, "error": e}
+            for way in ("Measurement", "Quantity-of-ufloat"):
+                acc.ev()
+                acc.nt(("compact", u, v, rel, way))
+                m0 = Meas(v, e, u) if way == "Measurement" else Q(ufloat(v, e), u)
+                o = call(lambda: m0.to_compact())
+                if o[0] != "ok":
+                    acc.violation(["conversion", "to_compact", "raises", way], case, repr(pc), o[1])
+                    continue
+                m = o[1]
+                if dict(m._units) != dict(pc._units):
+                    acc.violation(["conversion", "to_compact", "prefix-differs-from-the-plain-quantity-of-the-nominal-value", way], case, str(pc.units), str(m.units))
+                    continue
+                if not close(nominal(m), pc.magnitude, 1e-12):
+                    acc.violation(["conversion", "to_compact", "nominal-value-differs-from-plain-conversion", way], case, pc.magnitude, nominal(m))
+                if not close(stddev(m), e * abs(slope), 1e-9):
+                    acc.violation(["conversion", "to_compact", "standard-deviation-is-not-scaled-by-the-slope", way], case, e * abs(slope), stddev(m))
+                if way == "Measurement":
+                    for spec in ("P", "", ".2fP", "~P"):
+                        acc.ev()
+                        want = call(lambda: format(Meas(pc.magnitude, e * abs(slope), pc.units), spec))
+                        got = call(lambda: format(m0, "#" + spec))
+                        if want[0] == "ok" and got != want:
+                            acc.violation(["format", "compact-flag", "differs-from-the-format-of-the-compacted-measurement", spec], case, want[1], got[1])
+            acc.outcome("compacted")
+    acc.sample({"clause": "to_compact", "measurement": "(1500 +/- 200) kilometer", "expected": "(1.5 +/- 0.2) megameter"})
+
+
 # ----------------------------------------------------------------------------- arithmetic
 
 
@@ -370,7 +417,7 @@ def run_formats(acc):
 
 
 def shards(tier, seed):
-    return [("constructors",), ("conversions",), ("arithmetic",), ("formats",)] + [("notations", b, 8) for b in range(8)]
+    return [("constructors",), ("conversions",), ("arithmetic",), ("formats",), ("compact",)] + [("notations", b, 8) for b in range(8)]
 
 
 def run_shard(acc, shard, tier, seed):
@@ -383,6 +430,8 @@ def run_shard(acc, shard, tier, seed):
         run_arithmetic(acc)
     elif k == "formats":
         run_formats(acc)
+    elif k == "compact":
+        run_compact(acc)
     elif k == "notations":
         run_notations(acc, shard[1], shard[2])
     else:
@@ -392,6 +441,10 @@ def run_shard(acc, shard, tier, seed):
 def replay(rec):
     site = rec["site"]
     acc = core.Acc(PROPERTY)
+    if len(site) > 1 and site[1] in ("to_compact", "compact-flag"):
+        run_compact(acc)
+        sites = {tuple(v["site"]) for v in acc.violations}
+        return tuple(site) in sites, {"sites_seen": sorted(sites)[:20]}
     {"constructor": run_constructors, "conversion": run_conversions, "arithmetic": run_arithmetic, "format": run_formats}.get(site[0], lambda a: [run_notations(a, b, 8) for b in range(8)])(acc)
     sites = {tuple(v["site"]) for v in acc.violations}
     return tuple(site) in sites, {"sites_seen": sorted(sites)[:20]}
@@ -402,7 +455,8 @@ MANIFEST = {
     "technique": "bounded exhaustive enumeration of constructor forms, unit pairs, operand-kind cells, a generated notation grammar and format specs, against independently written first-order propagation formulas and a notation reader",
     "text": "Constructors: 5 values x 4 errors x 6 forms (Quantity pair incl. error in another unit, numbers + unit, ufloat + unit, plus_minus absolute/relative) must report value, error and rel back; negative errors "
     "rejected. Conversions: all ordered pairs of 9 units (4 lengths, kelvin, degC, degF and their deltas) x 3 values x 3 errors: nominal value as the plain quantity, standard deviation times the slope of the "
-    "affine/linear map, relative error invariant for multiplicative pairs, refused where the plain quantity is refused. Arithmetic: + - * / ** over (Measurement | Quantity | number) operand kinds in three unit "
+    "affine/linear map, relative error invariant for multiplicative pairs, refused where the plain quantity is refused. Compaction: 10 prefixed/unprefixed units x 7 values x 3 relative errors, as Measurement and as "
+    "Quantity of a ufloat: to_compact() picks the prefix the plain nominal quantity gets, scales value and error alike, and '#'+spec formats as the compacted measurement under spec. Arithmetic: + - * / ** over (Measurement | Quantity | number) operand kinds in three unit "
     "spellings against written-out first-order formulas, plus 8 correlated expressions ((a+b)-a, (a*b)/a, a.to(u)-a, ...) whose uncertainty only comes out right if results stay correlated with their "
     "operands. Notations: every string of the generated uncertainty grammar (plain, parenthesised, (v +/- e)eN, exponents on both parts, ± sign, leading-zero exponents, concise v(e) and v(e)eN, zero and nan written as value or as error under every exponent form, with and "
     "without unit and spaces) must parse to the measurement it denotes. Formats: 13 measurements (incl. |value| << error, and exact zero errors at large and small scale) x 14 specs; plain ones parse back to within the digits printed.",
